@@ -303,7 +303,8 @@ impl<'a> Run<'a> {
                     continue;
                 }
                 // DESIGN 6 #10: a later register of the same name in another context hides this one
-                let shadowed = fs[ri + 1..].iter().any(|f| f.inc < cur && f.suf == "register" && f.name == r.name && f.ctx != r.ctx);
+                // ... and one in the same context replaced it
+                let shadowed = fs[ri + 1..].iter().any(|f| f.inc < cur && f.suf == "register" && f.name == r.name);
                 if ann_cur.is_empty() {
                     if !shadowed {
                         p.push(format!("restore {}", r.topic));
@@ -323,6 +324,11 @@ impl<'a> Run<'a> {
             };
             let after_id = kind["resume"].as_str().and_then(|s| s.strip_prefix("after:")).and_then(|n| n.parse::<usize>().ok())
                 .and_then(|n| self.act_id.get(&n).cloned());
+            // frames are handled in order: nothing before the last frame the instance has answered
+            // (or stopped on) can still be owed - it was skipped for good (observer: skipped / known #9)
+            let answered = |f: &Fr| fs.iter().any(|o| o.inc == cur && stamped(o) && meta_str(&o.meta, "frame_id") == Some(f.id.as_str()));
+            let last_done = fs.iter().enumerate().filter(|(i, f)| *i >= from && f.ctx == r.ctx && !stamped(f) && answered(f)).map(|(i, _)| i).last();
+            let from = last_done.unwrap_or(from).max(from);
             for f in fs[from..].iter() {
                 if f.ctx != r.ctx || stamped(f) {
                     continue;
@@ -500,6 +506,11 @@ impl<'a> Run<'a> {
                 }
             }
             "sleep" => std::thread::sleep(Duration::from_millis(a["ms"].as_u64().unwrap_or(10))),
+            "settle" => {
+                // let what is in flight finish, but do not insist (used before probes in mode B)
+                let cap = Duration::from_millis(a["cap_ms"].as_u64().unwrap_or(1500));
+                let _ = self.wait_quiet(tm.step_settle, cap, tm.poll);
+            }
             "burst" => {
                 let items = a["items"].as_array().cloned().unwrap_or_default();
                 let mut reqs = vec![];
@@ -520,7 +531,11 @@ impl<'a> Run<'a> {
             _ => self.do_append(idx, a),
         }
         self.nact += 1;
-        if mode_a && a["a"].as_str() != Some("sleep") && !a["nowait"].as_bool().unwrap_or(false) {
+        if (mode_a || a["wait"].as_bool().unwrap_or(false))
+            && a["a"].as_str() != Some("sleep")
+            && a["a"].as_str() != Some("settle")
+            && !a["nowait"].as_bool().unwrap_or(false)
+        {
             let _ = self.wait_quiet(tm.step_settle, tm.long, tm.poll);
         }
     }
